@@ -83,34 +83,35 @@ def ETEnv.tripletOk (env : ETEnv α) (e : Nat) : Bool :=
   | none => false
   | some (s, d) => env.vertex s && env.vertex d
 
-/-- `forward = true`: `forward_traversal(trav, nbr, prev, si)` with `nbr` the previous edge;
-`forward = false`: `reverse_traversal(trav, nbr, prev, si)` with `nbr` the next edge.
-Returns the `access_cost` and `traversal_cost` fields. -/
+/-- the access step of the two functions: the `access_cost` field of the record.
+`forward = true`: `nbr` is the previous edge (`get_vertex(e1.src_vertex_id)`, pair `(nbr, trav)`);
+`forward = false`: `nbr` is the next edge (`get_vertex(e2.dst_vertex_id)`, pair `(trav, nbr)`) -/
+def CostModel.accessStep (m : CostModel α) (env : ETEnv α) (forward : Bool) (trav : Nat)
+    (nbr : Option Nat) (prev : List α) : Except ETErr α :=
+  match nbr with
+  | none => .ok (edgeAccessShare none)
+  | some k =>
+    match env.edge k with
+    | none => .error .network
+    | some sd =>
+      if env.vertex (if forward then sd.1 else sd.2) = false then .error .network
+      else
+        match env.access with
+        | none => .error .access
+        | some accessed =>
+          match m.accessCost (if forward then k else trav) (if forward then trav else k) prev accessed with
+          | none => .error .cost
+          | some a => .ok (edgeAccessShare (some a))
+
+/-- `forward = true`: `forward_traversal(trav, nbr, prev, si)`; `forward = false`:
+`reverse_traversal(trav, nbr, prev, si)`.  Returns the `access_cost` and `traversal_cost` fields. -/
 def CostModel.edgeTraversalE (m : CostModel α) (env : ETEnv α) (forward : Bool) (trav : Nat)
     (nbr : Option Nat) (prev : List α) : Except ETErr (α × α) :=
   if env.tripletOk trav = false then .error .network
   else
-    -- the access step
-    let accessPart : Except ETErr (α × List α) :=
-      match nbr with
-      | none => .ok (edgeAccessShare none, prev)
-      | some k =>
-        match env.edge k with
-        | none => .error .network
-        | some (s, d) =>
-          -- forward: `get_vertex(e1.src_vertex_id)`; reverse: `get_vertex(e2.dst_vertex_id)`
-          if env.vertex (if forward then s else d) = false then .error .network
-          else
-            match env.access with
-            | none => .error .access
-            | some accessed =>
-              let pair : Nat × Nat := if forward then (k, trav) else (trav, k)
-              match m.accessCost pair.1 pair.2 prev accessed with
-              | none => .error .cost
-              | some a => .ok (edgeAccessShare (some a), accessed)
-    match accessPart with
+    match m.accessStep env forward trav nbr prev with
     | .error e => .error e
-    | .ok (acc, _) =>
+    | .ok acc =>
       match env.traverse with
       | none => .error .traversal
       | some next =>
